@@ -18,7 +18,7 @@ for b in ben:
     brow.append(f"| {b} | {re.sub(chr(10), ' ', str(m.get('summary','')))[:260].replace('|','/')} | {', '.join(m.get('files', []))[:120]} |")
 text = f"""## 11. Seeded changes and which checks catch them
 
-{len(rows)} property-breaking changes (sixteen per property - fifteen for C19 -, written in eight rounds) and {len(ben)} behaviour-preserving refactors were produced by
+{len(rows)} property-breaking changes (eighteen per property - seventeen for C19 -, written in nine rounds) and {len(ben)} behaviour-preserving refactors were produced by
 fresh sub-agents that saw only the text of one property (or, for the refactors, a list of files) and a scratch worktree of /repo -
 nothing from /verif. Each property-breaking change was confirmed by me in a scratch worktree (`tools/confirm_mut.sh`: the patch applies,
 the 179 tests pass with it, its demonstration fails with it and passes without it) and then run against the registered quick check of
@@ -28,7 +28,8 @@ and asked for different kinds (helper modules, tables, Python idiom slips, featu
 shape-gated tolerance features, exception handling, check ordering); round 5 was a red-team round: the sub-agents were told what the harness
 consists of and asked for changes it is LEAST likely to notice (each explains the blind spot it aims at in `meta.json`); round 6 was a second
 red-team round whose sub-agents were additionally given every earlier idea and the strengthening it had led to; round 7 a third one, whose
-sub-agents were also told about the source-derived dictionary, the size ladder, the process environments and the state observers.
+sub-agents were also told about the source-derived dictionary, the size ladder, the process environments and the state observers; rounds 8 and 9 were a fourth and a
+fifth one, each told everything the harness had by then.
 
 **Result.** (Numbers for /repo ec6c9f4.) {len(rows) - 4} of the {len(rows)} changes are reported with a concrete failing input by the quick check of the property they break; four are
 reported as a broken proof obligation / correspondence (`no-failing-input-found`, the replay names what no longer checks): C06_10 (a whole new
@@ -118,6 +119,28 @@ inside CBOR, the EdDSA repair marker written over every offset of a layout, magi
 public callables the changed source defines and the pinned API baseline lacks are called, and what they return is used as a context manager around accepted and refused calls -
 afterwards the old API must answer as before (a leaked "strict mode"); (q) the same record OBJECT re-verified after its fields were re-assigned, 300 distinct calls then the first
 again, instruction-level interleaving with shared argument objects.
+
+Round 9 (fifth red-team round: 38 of 40 initially missed - the harness of round 8 caught two and reported a third through a broken proof obligation only) went for what lies
+OUTSIDE a single call on fresh Python objects in this sandbox's interpreter: added were (r) three more **process environments** - the library imported from a zip archive
+(a data file read relative to `__file__` is not there), optional third-party packages the changed source imports (`srcdict.new_imports`: certifi, idna ...) present as
+stand-ins, files the changed source names (`srcdict.paths`: /proc/sys/crypto/fips_enabled ...) present with contents 1 / 0 -, a TZ rule with daylight-saving time in force
+all year together with real-clock chains that start / end 30 minutes from now, and extension data of every CBOR kind in the codec lines (a `DeprecationWarning` that
+only "warnings as errors" turns into an exception); (s) **results are values** - every kept result is also cloned by `copy.copy`, `copy.deepcopy`, `pickle` and
+`dataclasses.replace`, and the clone must read like the original (three changes hid in `__reduce__`); objects the library RETURNED are fed back as the very objects after
+helper results obtained from them were edited; (t) **the RP's long-lived containers**: every call is repeated with policy lists that are the same objects as in an earlier call
+and were edited in place since (`impl.reused_policy_containers`), credential dicts that are `defaultdict`s / case-folding dict subclasses, records of application subclasses
+with constructors of their own (`dataclasses.replace` cannot rebuild them), dataclass subclasses of descriptors with further fields, read-only views of a shared `mmap`
+(hashable, yet mutable), buffers with multi-byte items / two dimensions / `array.array`; (u) **parameters the changed source adds to existing entry points**
+(`srcdict.new_parameters` against a pinned signature baseline): on every refused case each new parameter is given candidate values (members of the enum its annotation
+names, booleans, algorithm ids, None ...) - a refused response must stay refused -, and fields of the registration result are supplied back under parameters of the same
+name; new format names are tried as wrappers around statements whose chain misses the configured anchors (so that C04_18, a "compound" format, now has a failing input);
+(v) catalogue additions: origins plus characters a sanitiser drops (lone surrogate escapes, TAG characters), client data that announce a digest of their own and are hashed
+with it ("null": not at all), PSS with MGF1 over another hash, the attachment hint crossed with counter regressions and flag bytes, COSE keys with `key_ops` of every content
+in the register-then-authenticate chain, Keymaster authorization tags beyond the four the procedure reads, CBOR items wrapped in tags a decoder may see through (24, 55799),
+another Base64 text of the right SafetyNet nonce (spare bits), TCG device attributes in the certificate SUBJECT, an out-of-date leaf beside a fault-free sibling certificate
+whose issuer's name it bears, a compressed-point SubjectPublicKeyInfo (asn1crypto re-encoding), GUID / hex / date / JWT-shaped base64url texts, invisible trailers on names,
+statement members the format does not read holding unknown tags / unassigned simple values, the full product of pubArea enumerations, and a second stored key with the
+CRC-32 and length of the first (`fw.checksum_twin_suffix`).
 
 **Detection must not depend on the random stream.** Re-running all seeded changes under other seeds (`VERIF_SEED=1`, `7`) showed that a few catches
 had been luck: a catalogue entry that picks one of several variants at random (which origin alias, which id spelling, which vandalism) only exposes
